@@ -1,0 +1,24 @@
+//go:build verif
+
+package bmatch
+
+// Ghost code for govc (see /verif/DESIGN.md): never called, compiled only with -tags verif. Each function constructs a
+// value matcher with the REAL constructor and applies it to an arbitrary value; its contract in verif_contracts.go states the
+// documented meaning of the operator. (For the operators whose matcher is a bound library method there is no closure in
+// this package that could carry the contract.)
+
+func lemmaRegexOperator(expr string, v string) (bool, error) {
+	m, err := createValueMatcherRegex(expr)
+	if err != nil {
+		return false, err
+	}
+	return m.match(v), nil
+}
+
+func lemmaGlobOperator(expr string, v string) (bool, error) {
+	m, err := createValueMatcherGlob(expr)
+	if err != nil {
+		return false, err
+	}
+	return m.match(v), nil
+}
